@@ -21,7 +21,7 @@ Notation zcollect_samples := (collect_samples zframe Z Z Z (z_eqm fm) (fmt_nch f
 (* add_amp(delay(2, borrowed 4-frame source), offset_amp(10, 5 samples = 2 complete stereo frames)) *)
 Definition ex_base : zsig := from_iter 1 [[1; 2]; [3; 4]; [5; 6]; [7; 8]].
 Definition ex_tree : zsig :=
-  AddAmp (Delay 2 (ByRef ex_base)) (OffsetAmp 10 (zfrom_samples fm 2 [100; 200; 300; 400; 500])).
+  AddAmp (Delay 2 (ByRef ex_base)) (OffsetAmp 10 (zfrom_samples (ops_of fm) 2 [100; 200; 300; 400; 500])).
 
 (* the hypotheses of the pull / by_ref theorems: the base sits under a pending delay of 2 *)
 Example ex_sub : sub_at [DLeft; DOnly] ex_tree = Some (ByRef ex_base) /\ delay_above [DLeft; DOnly] ex_tree = 2%nat.
@@ -51,7 +51,7 @@ Proof. vm_compute. reflexivity. Qed.
 
 (* the trailing half frame (500) is dropped; interleaved output = 2 frames x 2 channels in channel order *)
 Example ex_interleaved :
-  match zcollect_samples 10 {| isig := OffsetAmp 10 (zfrom_samples fm 2 [100; 200; 300; 400; 500]); icur := None |} with
+  match zcollect_samples 10 {| isig := OffsetAmp 10 (zfrom_samples (ops_of fm) 2 [100; 200; 300; 400; 500]); icur := None |} with
   | Ok (l, _) => l = [110; 210; 310; 410]
   | _ => False
   end.
